@@ -154,3 +154,16 @@ Proof.
   intros i o Hg _. unfold get in Hg. apply nth_error_In in Hg.
   rewrite forallb_forall in H. apply Nat.ltb_lt. apply H. exact Hg.
 Qed.
+
+(** the history of the defect repaired by /repo d18acb2, on the model: a named object ABCD is created below the
+    root, freed, its slot is reused by newObject and the new object appended below the root: looking ABCD up
+    from the root finds nothing (before the repair: the reused slot) *)
+Example C13_newobject_unnamed_example :
+  let ops := [ OpNewNamed opScopeBlock 0 (nm4 0x5c 0 0 0);
+               OpNewNamed opScopeBlock 1 (nm4 0x41 0x42 0x43 0x44);
+               OpAppend 0 1; OpDetach 0 1; OpFree 1;
+               OpNew 0x11 1; OpAppend 0 1 ] in
+  exists t, run (@NewObjectTree N) ops = Ok t /\ length (t_pool t) = 2%nat /\
+            Find t 0 [0x41; 0x42; 0x43; 0x44] = Ok InvalidIndex /\
+            option_map (@o_name N) (get t 1) = Some name_zero.
+Proof. eexists. vm_compute. repeat split; reflexivity. Qed.
